@@ -5,8 +5,10 @@ Open Scope N_scope.
 
 Definition big (lim : limits) : N := N.max (max_line lim) (max_field lim).
 
+(* the buffered partial line may exceed its limit by one byte: a CR that ends the buffered part is
+   not counted by the length check (it may be the first half of the line terminator) *)
 Definition bounded (lim : limits) (s : pst) : Prop :=
-  lenN (tail s) <= big lim /\ lenN (lines s) <= max_headers lim /\
+  lenN (tail s) <= big lim + 1 /\ lenN (lines s) <= max_headers lim /\
   Forall (fun l => lenN l <= big lim) (lines s).
 
 Lemma start_message_state lim o s ls s' f :
@@ -23,6 +25,9 @@ Proof.
     repeat (match goal with |- context [if ?b then _ else _] => destruct b end);
       intro H; inversion H; subst; cbn; auto.
 Qed.
+
+Lemma tail_len_bound d (t : bytes) : lenN t <= tail_len d t + 1.
+Proof. unfold tail_len. destruct (d && (last t 0 =? 13)); lia. Qed.
 
 Lemma limit_le_big lim (ls : list bytes) :
   match ls with [] => max_line lim | _ => max_field lim end <= big lim.
@@ -69,7 +74,8 @@ Proof.
         apply Forall_app. split; [exact Hb3|]. constructor; [lia|constructor].
     + split_if H. split_if H.
       inversion H; subst s' a' lo. destruct Hb as (Hb1 & Hb2 & Hb3). unfold bounded. cbn [tail lines].
-      pose proof (limit_le_big lim (lines s)). repeat split; [lia|exact Hb2|exact Hb3].
+      pose proof (limit_le_big lim (lines s)). pose proof (tail_len_bound tail_check_discounts_cr buf).
+      repeat split; [lia|exact Hb2|exact Hb3].
 Qed.
 
 Lemma feed_bounded lim o s data a s' a' lo :
